@@ -35,6 +35,10 @@ sys.path.insert(0, str(pathlib.Path(__file__).resolve().parent.parent / 'lib'))
 import vf, back, progs, irgen, ir as IR, extract
 
 LANGS = list(extract.LANGS)
+# core/src/language/swift.rs:24
+SWIFT_KEYWORDS = set('''associatedtype class deinit enum extension fileprivate func import init inout internal let operator private protocol public
+rethrows static struct subscript typealias var break case continue default defer do else fallthrough for guard if in repeat return switch where
+while as Any catch false is nil super self Self throw throws true try Protocol Type'''.split())
 
 # ---------------------------------------------------------------------------------------------------
 # Genuine behaviours of the real tool that make its text deviate from the IR ground truth.
@@ -548,6 +552,10 @@ class Cmp:
                 want_content = {'typescript': nv, 'kotlin': npay, 'scala': npay, 'swift': 1 + 2 * npay + nopt, 'go': 2, 'python': npay}[lang]
                 self.eq('tag_keys', d['tag_keys'], [e['tag']] * want_tag, f'enum {nm} tag keys')
                 self.eq('content_keys', d['content_keys'], [e['content']] * want_content, f'enum {nm} content keys')
+                if lang == 'swift':
+                    # the ContainerCodingKeys cases: bare key + whether it was back-ticked (a key in SWIFT_KEYWORDS, fix 29 of /repo)
+                    self.eq('container_keys', [(c['name'], c['escaped']) for c in d.get('container_keys') or []],
+                            [(e['tag'], e['tag'] in SWIFT_KEYWORDS), (e['content'], e['content'] in SWIFT_KEYWORDS)], f'enum {nm} ContainerCodingKeys cases')
                 if lang == 'python' and e['generics'] and any(g in IR.type_ids(x) for g in e['generics'] for x in IR.item_types(e)):
                     self.f('python_enum_generics_not_declared', f'enum {nm}{e["generics"]}')
             else:
